@@ -67,7 +67,7 @@ def strata(tier):
                 break
         yield {"term": t, "sseed": j, "probe": cont}
     # literal mapping arguments: string keys incl. path-like ones, and non-string keys
-    for j, lit in enumerate([{}, {"a": 1}, {"path": [1]}, {"path": ["a"], "b": 2}, {"path.length": 3}, {"value": 3}, {"key": "a"}, {"keys": [1, 2]}, {"value": 1, "x": 2}, {"lower": 1}, {"N": 1},
+    for j, lit in enumerate([{}, {"a": 1}, {"path": [1]}, {"path": ["a"], "b": 2}, {"path.length": 3}, {"paths": [1]}, {"pathname": "x"}, {"path_to": ["a"]}, {"pathway": 1}, {"path-x": 1}, {"value": 3}, {"key": "a"}, {"keys": [1, 2]}, {"value": 1, "x": 2}, {"lower": 1}, {"N": 1},
                              {"classes": "int"}, {"items": {"a": 1}}, {"tolerance": 0.5}, {"path.map_keys": 1}, {"path.first.map_values": [1]}, {"path.a_b": 2},
                              {"x": {"path": ["a"]}}, {1: 2}, {None: 0, 2.5: "x"}, {True: [1]}, {"a": {1: 2}}]):
         for fn in ("equal_to", "not_equal_to", "in_"):
